@@ -27,13 +27,23 @@ def strictlyIncreasing : List Nat → Bool
   | a :: b :: rest => a < b && strictlyIncreasing (b :: rest)
   | _ => true
 
-/-- Consecutive retained pairs (i,j) and the omitted k between them are within tolerance. -/
+/-- How far the float64 evaluation of `distanceFromSegmentSquared` can be from the exact squared
+distance: the parameter, the foot and the two differences are each a few roundings of numbers no
+larger than the largest ordinate M of the three points, so the error is below 64·2⁻⁵³·M². -/
+def roundOff (a b p : Pt) : Rat :=
+  let m := [a.1, a.2, b.1, b.2, p.1, p.2].foldl (fun m x => max m (Exact.abs x)) 0
+  64 * m * m / 9007199254740992
+
+/-- Consecutive retained pairs (i,j) and the omitted k between them are within tolerance: the
+exact squared distance is at most thr² plus what rounding can account for (never more than a
+10⁻⁹ part of thr²). -/
 def omittedOK (pts : Array Pt) (thr2 : Rat) : List Nat → Bool
   | i :: j :: rest =>
       (List.range (j - i - 1)).all (fun d =>
         let k := i + 1 + d
         match pts[i]?, pts[j]?, pts[k]? with
-        | some a, some b, some p => segDist2 a b p ≤ thr2
+        | some a, some b, some p =>
+            segDist2 a b p ≤ thr2 + min (thr2 * mkRat 1 1000000000) (roundOff a b p)
         | _, _, _ => false) && omittedOK pts thr2 (j :: rest)
   | _ => true
 
@@ -46,8 +56,8 @@ def verdict (pts : Array Pt) (thr : Rat) (idx idx2 : List Nat) (slack : Rat := 0
   else if !strictlyIncreasing idx then "FAIL indexes not strictly increasing"
   else if idx.head? != some 0 || idx.getLast? != some (n - 1) then "FAIL first or last point missing"
   else if !idx.all (· < n) then "FAIL index out of range"
-  -- float evaluation of the distance may differ from the exact one by rounding: relative slack
-  else if !omittedOK pts ((thr + slack) * (thr + slack) * (1 + mkRat 1 1000000000)) idx then
+  -- float evaluation of the distance may differ from the exact one by rounding: see `roundOff`
+  else if !omittedOK pts ((thr + slack) * (thr + slack)) idx then
     "FAIL an omitted point is farther than the threshold from the segment joining its retained neighbours"
   else if idx2 != List.range idx.length then "FAIL simplifying the simplified line removed further points"
   else "ok"
